@@ -85,6 +85,34 @@ type Case struct {
 	// is parsed only after entry n was replayed (a legal schedule of the two
 	// goroutines of sendRdb; the default harness order parses everything first)
 	Interleave bool `json:"interleave,omitempty"`
+	// TDB > 0: output TargetDb = TDB-1 (every source DB goes there); DBMap: TargetDbMap
+	// (source DB → target DB). Pre DBs are TARGET DBs.
+	TDB   int      `json:"tdb,omitempty"`
+	DBMap [][2]int `json:"dbmap,omitempty"`
+}
+
+// TDBOf: the target DB of a source DB (RedisOutput.selectDB).
+func (c *Case) TDBOf(db int) int {
+	if c.TDB > 0 {
+		return c.TDB - 1
+	}
+	for _, m := range c.DBMap {
+		if m[0] == db {
+			return m[1]
+		}
+	}
+	return db
+}
+
+func (c *Case) DBMapGo() map[int]int {
+	if len(c.DBMap) == 0 {
+		return nil
+	}
+	m := map[int]int{}
+	for _, p := range c.DBMap {
+		m[p[0]] = p[1]
+	}
+	return m
 }
 
 // TKey: the key a snapshot key is replayed to.
@@ -101,6 +129,7 @@ func (c *Case) TargetKVs() []KV {
 	kvs := c.KVList()
 	for i := range kvs {
 		kvs[i].Key = c.TKey(kvs[i].Key)
+		kvs[i].DB = c.TDBOf(kvs[i].DB)
 	}
 	return kvs
 }
@@ -262,6 +291,8 @@ func ErrEnum(err error) (string, string) {
 		return "err-exists", key
 	case strings.HasPrefix(m, "rdb module object requires RESTORE"):
 		return "err-module", ""
+	case strings.Contains(m, "Bad data format"):
+		return "err-bad", ""
 	}
 	return "err-other", ""
 }
@@ -307,9 +338,12 @@ func (c *Case) Prepare() *Run {
 func (c *Case) Keys() []DK {
 	m := map[DK]bool{}
 	for _, k := range c.KVs {
-		m[DK{k.DB, string(c.TKey(vfutil.UnHex(k.Key)))}] = true
+		m[DK{c.TDBOf(k.DB), string(c.TKey(vfutil.UnHex(k.Key)))}] = true
 		if c.HashTag {
-			m[DK{k.DB, string(vfutil.UnHex(k.Key))}] = true // nothing may appear under the unrewritten key
+			m[DK{c.TDBOf(k.DB), string(vfutil.UnHex(k.Key))}] = true // nothing may appear under the unrewritten key
+		}
+		if c.TDBOf(k.DB) != k.DB {
+			m[DK{k.DB, string(c.TKey(vfutil.UnHex(k.Key)))}] = true // nothing may appear in the unmapped DB
 		}
 	}
 	for _, p := range c.Pre {
@@ -391,6 +425,16 @@ func Emit(s *vfutil.Session, idx int, c *Case, r *Run) {
 	rht := ""
 	if c.HashTag {
 		rht = " rht=1"
+	}
+	if c.TDB > 0 {
+		rht += fmt.Sprintf(" tdb=%d", c.TDB-1)
+	}
+	if len(c.DBMap) > 0 {
+		var ms []string
+		for _, m := range c.DBMap {
+			ms = append(ms, fmt.Sprintf("%d:%d", m[0], m[1]))
+		}
+		rht += " dbmap=" + strings.Join(ms, ",")
 	}
 	op := fmt.Sprintf("c20 tag=%d"+rht+" mode=%s pol=%s restore=%s maxbulk=%d ver5=%s now=%d pre=%s bad=%s fin=%s ents=%s", idx, c.Mode, c.Pol[:1],
 		b01(c.Restore), c.MaxBulk, ver5, int64(BubbleNowMs), join(pre, ","), join(c.Bad, ","), join(fin, ","), join(ents, ";"))
@@ -501,10 +545,32 @@ func Check(s *vfutil.Session, c *Case, r *Run) {
 				break
 			}
 		}
-		if failIdx < 0 {
+		if failIdx < 0 && r.Final != "err-bad" {
 			for i, kv := range kvs {
 				if string(kv.Key) == r.FailKey {
 					failIdx = i
+					break
+				}
+			}
+		}
+		if r.Final == "err-bad" {
+			// bidirectional replay: the unit's RESTORE was refused inside EXEC — the first key whose payload
+			// the target cannot load, that takes the RESTORE path and is not stopped by the probe before
+			for i, kv := range kvs {
+				k := DK{kv.DB, string(kv.Key)}
+				existed := pre[k] && r.Before[k] != nil
+				restorePath := false
+				for _, e := range r.Ents {
+					if string(c.TKey(e.Key)) == string(kv.Key) && c.TDBOf(e.DB) == kv.DB {
+						restorePath = c.Restore && e.CanRestore && e.DumpSize <= c.MaxBulk && !e.Splited
+						break
+					}
+				}
+				if c.IsBad(kv.Key) && restorePath && !(existed && c.Pol != "replace") {
+					failIdx = i
+					break
+				}
+				if existed && c.Pol == "error" {
 					break
 				}
 			}
@@ -519,7 +585,7 @@ func Check(s *vfutil.Session, c *Case, r *Run) {
 	}
 	viaRestore := func(kv KV) bool {
 		for _, e := range r.Ents {
-			if string(c.TKey(e.Key)) == string(kv.Key) && e.DB == kv.DB {
+			if string(c.TKey(e.Key)) == string(kv.Key) && c.TDBOf(e.DB) == kv.DB {
 				return c.Restore && e.CanRestore && e.DumpSize <= c.MaxBulk && !e.Splited && !c.IsBad(kv.Key)
 			}
 		}
@@ -576,6 +642,11 @@ func Check(s *vfutil.Session, c *Case, r *Run) {
 			if !SameVal(r.Before[k], r.After[k]) || len(touches(k)) > 0 {
 				viol(s, "error-modified", fmt.Sprintf("policy error: existing key %q modified before the error: %v", k.Key, touches(k)), c)
 			}
+		case failed && failIdx == i && r.Final == "err-bad":
+			s.Count("mon_bisync_bad_data")
+			if !SameVal(r.Before[k], r.After[k]) || len(touches(k)) > 1 {
+				viol(s, "bad-data-modified", fmt.Sprintf("bidirectional replay, payload refused: key %q changed although the replay failed: %+v -> %+v", k.Key, r.Before[k], r.After[k]), c)
+			}
 		default:
 			if failed && failIdx == i {
 				viol(s, "unexpected-error", fmt.Sprintf("key %q (existed=%v, policy %s) failed with %s: %s", k.Key, existed, c.Pol, r.Final, r.ErrText), c)
@@ -609,10 +680,19 @@ func Check(s *vfutil.Session, c *Case, r *Run) {
 			viol(s, "foreign-key-modified", fmt.Sprintf("key %q (db %d) not in the snapshot changed", k.Key, k.DB), c)
 		}
 	}
+	// TargetDb / TargetDbMap: nothing appears in the unmapped DB
+	for _, kv := range c.KVList() {
+		if c.TDBOf(kv.DB) != kv.DB {
+			k := DK{kv.DB, string(c.TKey(kv.Key))}
+			if !snap[k] && !pre[k] && !SameVal(r.Before[k], r.After[k]) {
+				viol(s, "unmapped-db-written", fmt.Sprintf("source DB %d is mapped to target DB %d, but key %q was written in DB %d: %+v", kv.DB, c.TDBOf(kv.DB), k.Key, kv.DB, r.After[k]), c)
+			}
+		}
+	}
 	if c.HashTag {
 		// replaceHashTag: nothing is written under the unrewritten key
 		for _, kv := range c.KVList() {
-			k := DK{kv.DB, string(kv.Key)}
+			k := DK{c.TDBOf(kv.DB), string(kv.Key)}
 			if !snap[k] && !SameVal(r.Before[k], r.After[k]) {
 				viol(s, "hashtag-original-key-written", fmt.Sprintf("replaceHashTag: the snapshot key %q itself (not its rewritten form %q) was written: %+v", k.Key, c.TKey(kv.Key), r.After[k]), c)
 			}
@@ -670,7 +750,7 @@ func CheckParallel(s *vfutil.Session, c *Case, r *Run) {
 		}
 		viaRestore := false
 		for _, e := range r.Ents {
-			if string(c.TKey(e.Key)) == k.Key && e.DB == k.DB {
+			if string(c.TKey(e.Key)) == k.Key && c.TDBOf(e.DB) == k.DB {
 				viaRestore = c.Restore && e.CanRestore && e.DumpSize <= c.MaxBulk && !e.Splited && !c.IsBad(kv.Key)
 				break
 			}
@@ -802,6 +882,7 @@ func GenCase(r *vfutil.Rand, mode string, dbs int) *Case {
 		}
 		c.KVs = append(c.KVs, kv)
 	}
+	hasTwin := false
 	if dbs > 1 && len(c.KVs) > 0 && r.Chance(1, 3) {
 		// the same key NAME as a snapshot key of both DBs (the remembered ignore
 		// decision of one must not leak into the other)
@@ -830,6 +911,7 @@ func GenCase(r *vfutil.Rand, mode string, dbs int) *Case {
 		}
 		if !dup {
 			c.KVs = append(c.KVs, twin)
+			hasTwin = true
 		}
 	}
 	sort.SliceStable(c.KVs, func(i, j int) bool { return c.KVs[i].DB < c.KVs[j].DB })
@@ -861,12 +943,23 @@ func GenCase(r *vfutil.Rand, mode string, dbs int) *Case {
 			c.KVs[i].Key = vfutil.HexS(key)
 		}
 	}
-	if mode != "bisync" && c.Restore && r.Chance(1, 4) {
-		// a target that cannot load some payloads ("Bad data format")
+	if c.Restore && r.Chance(1, 4) {
+		// a target that cannot load some payloads ("Bad data format"); keys as RESTORE names them
 		for _, kv := range c.KVs {
 			if r.Bool() {
-				c.Bad = append(c.Bad, kv.Key)
+				c.Bad = append(c.Bad, vfutil.Hex(c.TKey(vfutil.UnHex(kv.Key))))
 			}
+		}
+	}
+	if dbs > 1 && !hasTwin && r.Chance(1, 4) {
+		// TargetDb / TargetDbMap (key names are distinct across the source DBs here)
+		switch r.Intn(3) {
+		case 0:
+			c.TDB = 1 + r.Intn(3)
+		case 1:
+			c.DBMap = [][2]int{{1, 0}}
+		default:
+			c.DBMap = [][2]int{{0, 2}, {1, 0}}
 		}
 	}
 	for _, kv := range c.KVs {
@@ -875,14 +968,16 @@ func GenCase(r *vfutil.Rand, mode string, dbs int) *Case {
 			if r.Bool() {
 				kind = vfutil.Pick(r, Kinds)
 			}
-			p := Pre{DB: kv.DB, Key: vfutil.Hex(c.TKey(vfutil.UnHex(kv.Key))), Kind: kind}
+			p := Pre{DB: c.TDBOf(kv.DB), Key: vfutil.Hex(c.TKey(vfutil.UnHex(kv.Key))), Kind: kind}
 			if r.Chance(1, 3) {
 				p.TTL = int64(r.Range(1000, 900000))
 			}
 			c.Pre = append(c.Pre, p)
 		} else if dbs > 1 && r.Chance(1, 4) {
 			// the same key name in the OTHER db must not matter
-			c.Pre = append(c.Pre, Pre{DB: 1 - kv.DB, Key: vfutil.Hex(c.TKey(vfutil.UnHex(kv.Key))), Kind: vfutil.Pick(r, Kinds)})
+			if c.TDB == 0 && len(c.DBMap) == 0 {
+				c.Pre = append(c.Pre, Pre{DB: 1 - kv.DB, Key: vfutil.Hex(c.TKey(vfutil.UnHex(kv.Key))), Kind: vfutil.Pick(r, Kinds)})
+			}
 		}
 	}
 	if r.Chance(1, 4) {
